@@ -627,7 +627,7 @@ theorem confirmPool_sum (t : Tx) (prop : String) (s : St) (hn : UNodup s.U)
     simp only [Nat.zero_add]; exact hfree idx (feeSlot_of_get t idx o ho hd))
   exact ⟨p1, p2, (payFee_frame t prop t.outs 0 s).2.2.1⟩
 
-/-- confirming a transaction that was not pending (admit, apply, pay the fee): the difference `Σ U − total` is unchanged.
+/-- confirming a transaction that was not pending (admission, application, fee payment): the difference `Σ U − total` is unchanged.
 A coinbase (award) has no inputs and no fee. -/
 theorem confirmNew_sum (s : St) (lh : Int) (t : Tx) (prop : String) (hadm : admitTx s lh t = .ok) (hn : UNodup s.U)
     (hfresh : ∀ o, lookup s.U (t.id, o) = none) (hself : ∀ r ∈ t.ins, r.tx ≠ t.id)
